@@ -9,7 +9,7 @@ import sys
 ROOT = os.path.join(os.path.dirname(os.path.dirname(os.path.abspath(__file__))), "coq", "theories")
 
 
-STANDALONE = {"AckProofs", "LocksProofs", "LedgerProofs", "PoolProofs", "WindowProofs", "MicroProofs"}
+STANDALONE = {"AckProofs", "LocksProofs", "LedgerProofs", "LedgerUpdProofs", "PoolProofs", "WindowProofs", "MicroProofs"}
 
 
 def statements(modname):
@@ -26,7 +26,8 @@ def emit(pid, title, imports, items, examples=""):
     cache = {}
     lines = ["(** %s. %s" % (pid, title),
              "    This file only pins statements: every theorem restates a lemma of proofs/ verbatim and is closed by it. *)",
-             ("From CacheD Require Import Base Ledger." if "LedgerProofs" in imports else
+             ("From CacheD Require Import Base Ledger LedgerUpd." if "LedgerUpdProofs" in imports else
+              "From CacheD Require Import Base Ledger." if "LedgerProofs" in imports else
               "From CacheD Require Import Base PoolProto." if "PoolProofs" in imports else
               "From CacheD Require Import Base Sketch Model Window Micro.\nFrom CacheD.proofs Require Import Defs ApiProofs HistoryProofs." if "MicroProofs" in imports else
               "From CacheD Require Import Base Sketch Model Window.\nFrom CacheD.proofs Require Import Defs." if "WindowProofs" in imports else
@@ -82,6 +83,9 @@ spec("C10_window", "Expiry sweeps with overtaking: put_or_update and the worker'
 spec("C08_window", "put_or_update split at its schedule point: the two halves are the atomic call when nothing overtakes them", ["WindowProofs"], [
     ("WindowProofs", "upsert_halves_compose", None), ("WindowProofs", "atomic_schedule_refines", None),
     ("WindowProofs", "sweep_inside_upsert_window_refuted", "known_finding_sweep_inside_upsert_window"),
+])
+spec("C05_ledger", "CacheWeight::update against the sweeper's CacheWeight::delete, one lock-delimited action at a time: the entry guard makes the update atomic", ["LedgerUpdProofs"], [
+    ("LedgerUpdProofs", "guarded_update_exact", None), ("LedgerUpdProofs", "unguarded_update_refuted", "guard_is_necessary"),
 ])
 M = "MicroProofs"
 spec("C05_micro", "Accounting under every interleaving of the micro steps of puts, deletes and reads (calls split at every schedule point)", [M], [
